@@ -9,8 +9,10 @@ RULE = ("simulated races as in C01 plus small sample queues (queue.Full), down-s
         "carrying the ids that moved and replayed through Samples.step; signature = model branch tags + scenario class")
 TRUSTED = ["the simulator's rules stand for Thespian", "pickle/zlib round trip of the in-memory store memento is exercised, not modelled",
            "dependent timings come from the real runner.Composite / RequestTiming issuing simulated sub-requests; the values of the timings are C18's subject, "
-           "here only their number, labels and sample type are checked (oracle, not modelled: a sample's records travel together and are represented by the sample id)"]
+           "their number, labels and sample type are in the record layer of the model (Samples.recordsOf)"]
 ASSUMPTIONS = ["fault-free runs"]
+
+from harness import sim_race
 
 
 def gen(ctx):
@@ -41,8 +43,22 @@ def gen(ctx):
                     sc["svc"][n] = rng.choice([0.125, 0.25, 0.5])
                     return n
 
-                t["subs"] = [[sub() for _ in range(rng.randint(1, 2))] for _ in range(rng.randint(1, 2))]
-                sc["svc"][t["name"]] = max(sum(sc["svc"][n] for n in st) for st in t["subs"])  # only used for the time budget
+                def items(depth):
+                    # requests and streams mixed on one level (open, concurrent searches, close), streams inside streams
+                    out = []
+                    for _ in range(rng.randint(1, 3)):
+                        r = rng.random()
+                        if r < 0.45 or depth >= 2:
+                            out.append(sub())
+                        else:
+                            out.append(items(depth + 1))
+                    return out
+
+                if rng.random() < 0.5:
+                    t["subs"] = [[sub() for _ in range(rng.randint(1, 2))] for _ in range(rng.randint(1, 2))]
+                else:
+                    t["subs"] = items(0)
+                sc["svc"][t["name"]] = sum(sc["svc"][n] for n in sim_race.flatten_subs(t["subs"]))  # only used for the time budget
         if rng.random() < 0.3:
             sc["full_race"] = True  # race control = the real BenchmarkActor + BenchmarkCoordinator with its own metrics store
         yield {"scenario": sc, "seed": rng.randrange(1 << 30)}
@@ -179,7 +195,7 @@ def run(ctx, case):
     factor = sc.get("downsample", 1)
     # what each accepted sample is, from the scenario (operation labels, sub-requests) and the sample as it was offered to the queue
     # (client, task, sample type): the model derives the request records from it (`Samples.recordsOf`)
-    subs_of0 = {t["name"]: [n for st in t["subs"] for n in st] for t in spec.values() if t.get("subs")}
+    subs_of0 = {t["name"]: sim_race.flatten_subs(t["subs"]) for t in spec.values() if t.get("subs")}
     client_of = {sid: c for (c, _t, _a), sid in sim.sample_key.items()}
     infos = [{"sid": sid, "client": client_of.get(sid, 0), "task": i["task"], "op": i["task"], "opType": "sim-composite" if i["task"] in subs_of0 else "sim",
               "normal": bool(i["normal"]), "deps": [[n, "sim"] for n in subs_of0.get(i["task"], [])]} for sid, i in sim.sample_info.items()]
@@ -195,7 +211,7 @@ def run(ctx, case):
         docs = sim.rc_docs
         if "r" in m and m["r"].get("records") is not None:
             compare_records(ctx, cls, m["r"]["records"], docs)
-        subs_of = {t["name"]: [n for st in t["subs"] for n in st] for t in spec.values() if t.get("subs")}
+        subs_of = {t["name"]: sim_race.flatten_subs(t["subs"]) for t in spec.values() if t.get("subs")}
         per, dep = {}, {}
         for d in docs:
             if d["name"] in ("latency", "service_time", "processing_time"):
@@ -326,12 +342,19 @@ def run_direct(ctx, case):
     rstore = metrics.InMemoryMetricsStore(cfg)
     sent = []
     workers = []
+    import logging
+
+    # stand-ins for the two actors' state: instances of the REAL classes created without running their constructors (no actor system, no
+    # cluster), so that helper methods, properties and loggers a refactoring may introduce on these classes are there
     for w in range(W):
-        ws = _t.SimpleNamespace(sampler=driver.Sampler(start_timestamp=0.0, buffer_size=(1 << 20) if cap is None else cap), worker_id=w,
-                                driver_actor="driver", send=lambda dst, m: sent.append(m))
+        ws = object.__new__(driver.Worker)
+        ws.__dict__.update(sampler=driver.Sampler(start_timestamp=0.0, buffer_size=(1 << 20) if cap is None else cap), worker_id=w,
+                           driver_actor="driver", send=lambda dst, m: sent.append(m), logger=logging.getLogger("esrally.driver.driver"))
         workers.append(ws)
-    drv = _t.SimpleNamespace(raw_samples=[], most_recent_sample_per_client={},
-                             sample_post_processor=driver.SamplePostprocessor(dstore, factor, {}, {}))
+    drv = object.__new__(driver.Driver)
+    drv.__dict__.update(raw_samples=[], most_recent_sample_per_client={}, metrics_store=dstore, logger=logging.getLogger("esrally.driver.driver"),
+                        current_step=0, number_of_steps=1, quiet=True, config=cfg,
+                        sample_post_processor=driver.SamplePostprocessor(dstore, factor, {}, {}))
     evs, sid = [], 0
     small = case["n"] <= 1500
     # what the throughput calculator is fed with
